@@ -279,6 +279,40 @@ pub(crate) mod c10_keys_and_info {
     }
 }
 
+pub(crate) mod c12_dummies {
+    use super::*;
+    use crate::helpers::Direction;
+    use crate::report::hybrid::IndistinguishableHybridReport;
+    use crate::secret_sharing::replicated::ReplicatedSecretSharing;
+    use crate::secret_sharing::SharedValue;
+
+    harness! {
+        #[kani::unwind(4)]
+        fn t12_dummy_records_contribute_nothing() {
+            // a dummy record built for padding: a consistent sharing of the random match key between the
+            // two generating helpers (the third helper's direction holds zero) and all-zero value and
+            // breakdown key, so it cannot add to any bucket.
+            let mk_raw: [u8; 8] = kani::any();
+            let mk: BA64 = unsafe { std::mem::transmute(mk_raw) };
+            let left: bool = kani::any();
+            let dir = if left { Direction::Left } else { Direction::Right };
+            let share = Replicated::<BA64>::new_excluding_direction(mk, dir);
+            let r = IndistinguishableHybridReport::<BA8, BA3>::from(share);
+            let (kept, zeroed) = if left { (r.match_key.right(), r.match_key.left()) } else { (r.match_key.left(), r.match_key.right()) };
+            let i: usize = kani::any();
+            kani::assume(i < 8);
+            assert!(unsafe { std::mem::transmute::<BA64, [u8; 8]>(kept) }[i] == mk_raw[i], "the generating pair holds the match key");
+            assert!(unsafe { std::mem::transmute::<BA64, [u8; 8]>(zeroed) }[i] == 0, "the excluded side holds zero");
+            let v: [u8; 2] = unsafe { std::mem::transmute((r.value.left(), r.value.right())) };
+            let b: [u8; 2] = unsafe { std::mem::transmute((r.breakdown_key.left(), r.breakdown_key.right())) };
+            assert!(v[0] == 0 && v[1] == 0 && b[0] == 0 && b[1] == 0, "value and breakdown key of a dummy are zero");
+            let z = IndistinguishableHybridReport::<BA8, BA3>::ZERO;
+            assert!(z == IndistinguishableHybridReport::<BA8, BA3>::from(Replicated::<BA64>::ZERO));
+            kani::cover!(true);
+        }
+    }
+}
+
 pub(crate) mod c11 {
     use super::*;
 
